@@ -149,16 +149,22 @@ class Model(object):
     """Reference evaluation of calls: parameters shadow globals during the evaluation of the body only."""
 
     def __init__(self, case):
-        self.deftype = deftype_map(case.get('deftypes', []))
+        # names in bodies and parameter lists are resolved with the DEFtype map in force when the CALL is made;
+        # deftype_def is the map in force when DEF FN ran (differs only for cases with 'deftypes2')
+        self.deftype_def = deftype_map(case.get('deftypes', []))
+        self.deftype = deftype_map(list(case.get('deftypes', [])) + list(case.get('deftypes2', [])))
+        self.retyped = bool(case.get('deftypes2'))
+        self.convert_by_def_type = False
         self.fns = {}
         for f in case['fns']:
-            self.fns[full_name(f['name'], self.deftype)] = f
+            self.fns[full_name(f['name'], self.deftype_def)] = f
 
     def call(self, fname, arg_asts, globals_, active=()):
         """arg_asts are evaluated in the caller's scope, each converted as soon as it is evaluated."""
         fname = full_name(fname, self.deftype)
         f = self.fns[fname]
-        ptypes = [sigil_of(p, self.deftype) for p in f['params']]
+        # alternative reading of the statement: the argument is converted to the type the parameter had at DEF FN time
+        ptypes = [sigil_of(p, self.deftype_def if self.convert_by_def_type else self.deftype) for p in f['params']]
         conv = [convert(self.ev(a, globals_, active), ty) for a, ty in zip(arg_asts, ptypes)]
         if fname in active:
             raise ModelError(7)
@@ -273,9 +279,10 @@ def _ks(s):
 
 class Gen(object):
 
-    def __init__(self, rng, tight=False):
+    def __init__(self, rng, tight=False, retype=0.2):
         self.rng = rng
         self.tight = tight
+        self.retype = retype
 
     def case(self, nfn=None, ncalls=20):
         rng = self.rng
@@ -315,11 +322,25 @@ class Gen(object):
             fns.append({'name': n1, 'params': [p], 'body': ['FN', n2, [['V', p]]], 'kind': 'rec-mutual'})
             fns.append({'name': n2, 'params': [p], 'body': ['-', ['FN', n3, [['V', p]]], _k(1)], 'kind': 'rec-mutual'})
             fns.append({'name': n3, 'params': [p], 'body': ['*', ['FN', n1, [['V', p]]], _k(2)], 'kind': 'rec-mutual'})
-        # globals: every parameter name, plus extra
+        # DEFtype change AFTER the definitions, for letters of unsuffixed parameters (never letters of function names)
+        deftypes2 = []
+        if rng.random() < self.retype:
+            bare = sorted(set(p[0] for f in fns for p in f['params'] if p[-1] not in '%!#$' and p[0] not in 'ABCDEFGH'))
+            rng.shuffle(bare)
+            for letter in bare[:2]:
+                old = dmap.get(letter, '!')
+                new = rng.choice([t for t in ('%', '!', '#', '#', '%', '$') if t != old])
+                # the retyped name must not collide with another parameter of the same function
+                if any(len(set(full_name(p, dict(dmap, **{letter: new})) for p in f['params'])) != len(f['params']) for f in fns):
+                    continue
+                deftypes2.append(({'%': 'DEFINT', '!': 'DEFSNG', '#': 'DEFDBL', '$': 'DEFSTR'}[new], letter))
+        dmap2 = deftype_map(list(deftypes) + deftypes2)
+        # globals: every parameter name (under both type maps), plus extra
         used = set()
         for f in fns:
             for p in f['params']:
                 used.add(full_name(p, dmap))
+                used.add(full_name(p, dmap2))
             for n in _vars_in(f['body']):
                 used.add(full_name(n, dmap))
         for _ in range(rng.randint(1, 4)):
@@ -344,7 +365,9 @@ class Gen(object):
                     arrays.append([n, ['e0', 'e1' + n[0], 'e2']])
                 else:
                     arrays.append([n, [1, 2, 3]])
-        case = {'deftypes': [list(d) for d in deftypes], 'fns': fns, 'globals': globals_, 'arrays': arrays, 'tight': self.tight}
+        case = {'deftypes': [list(d) for d in deftypes], 'deftypes2': [list(d) for d in deftypes2], 'fns': fns,
+                'globals': globals_, 'arrays': arrays, 'tight': self.tight}
+        self.dmap = dmap2          # calls are typed with the map in force at call time
         case['calls'] = [self.call(case) for _ in range(ncalls)]
         return case
 
@@ -555,6 +578,10 @@ def program_lines(case, extra=()):
         ps = '(%s)' % ','.join(f['params']) if f['params'] else ''
         lines.append('%d DEF %s%s=%s' % (n, f['name'], ps, body_text(f['body'])))
         n += 2
+    n = 90
+    for kw, rng_ in case.get('deftypes2', []):
+        lines.append('%d %s %s' % (n, kw, rng_))
+        n += 1
     n = 100
     for name, v in case['globals']:
         if name[-1] == '$':
